@@ -801,8 +801,12 @@ with builtin_call (n : nat) (fr : list frame) (b : builtin) (args : list value) 
       | _ => badarg
       end
   | BStrLen => match a1 with VStr s => ret [vint (len s)] | _ => unsup 19 end
-  | BStrSub => match a1 with VStr s => do i <- opt_int a2 1; do j <- opt_int a3 (-1); ret [VStr (sub_spec s i j)] | _ => unsup 19 end
-  | BStrRep => match a1 with VStr s => do k <- opt_int a2 0; if k >? 1000 then unsup 13 else ret [VStr (rep_spec s k)] | _ => unsup 19 end
+  | BStrSub => match a1, a2 with
+               | VStr s, VNum _ => do i <- opt_int a2 1; do j <- opt_int a3 (-1); ret [VStr (sub_spec s i j)]
+               | VStr _, VNil => badarg
+               | _, _ => unsup 19 end
+  | BStrRep => match a1, a2 with VStr _, VNil => fault 6 (frames_line fr) | _, _ => ret tt end ;;
+               match a1 with VStr s => do k <- opt_int a2 0; if k >? 1000 then unsup 13 else ret [VStr (rep_spec s k)] | _ => unsup 19 end
   | BStrUpper => match a1 with VStr s => ret [VStr (map toupper_c s)] | _ => unsup 19 end
   | BStrLower => match a1 with VStr s => ret [VStr (map tolower_c s)] | _ => unsup 19 end
   | BStrByte => match a1 with
